@@ -254,6 +254,25 @@ pub fn gen(out: &mut Out, thorough: bool, seed: u64) {
         ms.push(format!("server {{\n  k {}\n}}\n", v).into_bytes());
         ms.push(format!("server {{\n  {}\n}}\n", v).into_bytes());
     }
+    // every value of up to 3 (thorough: 4) symbols over an alphabet of digits, unit and other letters in both cases, multi-byte
+    // characters, sign, quote and structure characters: whatever suffix or prefix handling the value parser has, it is walked
+    // with a multi-byte character at every position
+    {
+        const VA: &[&str] = &["1", "0", "K", "M", "G", "k", "B", "b", "T", "e", "\u{e9}", "\u{20ac}", "\u{1f600}", "-", ".", "\"", "#", "{", "}", " "];
+        let depth = if thorough { 4 } else { 3 };
+        let mut layer: Vec<String> = vec![String::new()];
+        for _ in 0..depth {
+            let mut next = Vec::new();
+            for p in &layer {
+                for a in VA {
+                    let v = format!("{}{}", p, a);
+                    ms.push(format!("server {{\n  cache {{\n    size {}\n  }}\n}}\n", v).into_bytes());
+                    next.push(v);
+                }
+            }
+            layer = next;
+        }
+    }
     for m in &ms { add(&mut cases, "p_conf", m, false); }
     // ---- random bytes, every parser
     let nrand = if thorough { 200_000 } else { 6_000 };
